@@ -94,9 +94,9 @@ impl TraitHandler for DebugStructHandler {
                         debug_types.push(ty);
 
                         builder_token_stream.extend(if name.is_some() {
-                            quote! (builder.field(::core::stringify!(#key), &self.#field_name);)
+                            quote! (builder.field(::core::stringify!(#key), &&self.#field_name);)
                         } else {
-                            quote! (builder.entry(&Educe__RawString(::core::stringify!(#key)), &self.#field_name);)
+                            quote! (builder.entry(&Educe__RawString(::core::stringify!(#key)), &&self.#field_name);)
                         });
                     }
 
@@ -138,7 +138,7 @@ impl TraitHandler for DebugStructHandler {
                     } else {
                         debug_types.push(ty);
 
-                        builder_token_stream.extend(quote! (builder.field(&self.#field_name);));
+                        builder_token_stream.extend(quote! (builder.field(&&self.#field_name);));
                     }
 
                     has_fields = true;
